@@ -118,7 +118,7 @@ PROPS = {
                       "(requests only inside a check the policy allowed and carrying exactly its parameters; install only for an approved plan; reboot only after a "
                       "clean install with reboot_needed = yes and the latest reboot_allowed = yes; negative decisions lead to no request/install/reboot) and by step5b (the reboot-needed "
                       "question and the wait for the reboot only after an installer answer with no failure among the apps the response offered - judged by the installer's answer, not by the machine's own error events); "
-                      "an invalid app set makes run() inert.  The model is tied to the code by trace equality on scripted runs of the real state machine, and the same "
+                      "an invalid app set makes run() inert (C05_invalid_app_set_inert, C05_invalid_app_set_trace_is_empty: whatever is stored, the trace is empty - the check applies that rule to implementation traces).  The model is tied to the code by trace equality on scripted runs of the real state machine, and the same "
                       "monitors are run on every implementation trace.",
         "level_note": "Proved for the model by a trace-Hoare argument over SM.v (Proofs/C05Proof.v), unbounded in script length.  Model = code is sampled. "
                       "Control requests arrive only at the outer waits in this check's executor mode (in-check arrivals: C11).  Pings while waiting to reboot use the fixed "
